@@ -134,6 +134,9 @@ type TunPlan struct {
 	// PreambleDelay (legacy): the client lets that much time pass between the acceptance of its
 	// RDG_IN_DATA request and the first byte it sends on it
 	PreambleDelay time.Duration
+	// EmptyMsgEvery (websocket, with Segs): an empty binary message is sent in front of every
+	// n-th transport message
+	EmptyMsgEvery int
 	// LostOut (legacy): the client's first RDG_OUT_DATA connection is lost right after it was
 	// accepted (before any RDG_IN_DATA); the client retries with the same connection id
 	LostOut bool
@@ -204,6 +207,11 @@ func (t *Tun) sendSeg(c *Ctx) {
 		}
 	}
 	sg := p.Segs[t.seg]
+	if p.Transport == "ws" && p.EmptyMsgEvery > 0 && t.seg > 0 && t.seg%p.EmptyMsgEvery == 0 {
+		// a binary message without payload: it carries no byte of the packet stream
+		cl.SendWire(codec.WSFrame(true, 2, nil, cl.Mask()))
+		c.S.Count("probe.empty_websocket_message")
+	}
 	t.seg++
 	piece := t.stream[sg[0]:sg[1]]
 	last := t.seg == len(p.Segs)
